@@ -10,3 +10,4 @@ ASSUMPTIONS = [K.A_BYTEORDER, K.A_BYTES, K.A_ZLIB, K.A_TABLE, K.A_PRED, "CString
 OBLIGATIONS = ([K.BED_SECTION_W] + K.WRITER_LAYOUT + K.SPANS + [K.BED_FLUSH, K.TOTAL_ITEMS, K.WRITE_DATA, K.WRITE_MID, K.HEADER_ARGS, K.VALS_RETURNS,
                K.BUFSIZE, K.IDMAP, K.INDEX_PAIRS] + K.READER_COMMON + K.CIR_READER + [K.BED_BLOCK_R, K.ITEMCOUNT_R, K.BED_KEEP, K.QUERY_ARGS, K.OVERLAPS, K.BED_GUARDS] + [K.CONTRADICTION])
 OBLIGATIONS = OBLIGATIONS + [K.BLOCK_DATA, K.SEARCH_ORDER, K.INTERVAL_SIBS]
+OBLIGATIONS = OBLIGATIONS + [K.EVERY_VALUE]
